@@ -162,7 +162,7 @@ func TestVerifC06Random(t *testing.T) {
 	rep := verifkit.Begin("C06", fmt.Sprintf("random-%d", shard), "random Config messages: feature subsets over all enum values (incl. deprecated CODEC_TEXT), tri-state flags, 0-4 include and 0-4 exclude entries with every field independently omitted/pinned; distinct = configs on which a set was compared")
 	defer rep.Write()
 	rng := verifkit.Stream("c06random", shard)
-	n := verifkit.Scale(60000, 70000)
+	n := verifkit.Scale(60000, 560000)
 	for i := 0; i < n; i++ {
 		vfCheckConfig(rep, vfRandConfig(rng))
 	}
